@@ -27,6 +27,7 @@ import (
 	"os"
 	"os/exec"
 	"path/filepath"
+	"regexp"
 	"strings"
 	"sync"
 	"time"
@@ -143,9 +144,9 @@ func (c c19Cfg) config() *config.Config {
 
 // c19Proxy is main.newHTTPProxy as far as transports go (package main cannot be imported; the two argument
 // expressions are pinned by the regenerated fact `proxyTransportArgs`).
-func c19Proxy(lookup func(*http.Request) *route.Target) *proxy.HTTPProxy {
+func c19Proxy(pc config.Proxy, lookup func(*http.Request) *route.Target) *proxy.HTTPProxy {
 	return &proxy.HTTPProxy{
-		Config:            config.Proxy{},
+		Config:            pc,
 		Transport:         transport.NewTransport(nil),
 		InsecureTransport: transport.NewTransport(&tls.Config{InsecureSkipVerify: true}),
 		Lookup:            lookup,
@@ -270,7 +271,7 @@ func c19RunFields(raw json.RawMessage) (interface{}, error) {
 		return nil, fmt.Errorf("maxconn is not an int")
 	}
 	transport.SetConfig(in.Cfg.config())
-	p := c19Proxy(nil)
+	p := c19Proxy(in.Cfg.config().Proxy, nil)
 	tbl, err := c19Table(in.Target, "127.0.0.1:9")
 	if err != nil {
 		return nil, err
@@ -298,48 +299,129 @@ type c19TimingIn struct {
 	DMs    int    `json:"d_ms"`   // delay of the upstream's response headers
 	Kind   string `json:"kind"`   // default | insecure | route : which transport the request takes
 	Status int    `json:"status"` // what the upstream answers
+	// the request, along the dimensions ServeHTTP branches on (zero values = a plain GET as before)
+	Accept string `json:"accept,omitempty"` // Accept header ("text/event-stream" selects the SSE handler)
+	Method string `json:"method,omitempty"` // "" = GET
+	Gzip   bool   `json:"gzip,omitempty"`   // proxy.gzip.contenttype configured (^text/) or not
+	// the upstream's body: after the headers, BodyMs of streaming in Chunks flushed pieces (0 = "ok" at once)
+	BodyMs int `json:"body_ms,omitempty"`
+	Chunks int `json:"chunks,omitempty"`
+	// the other configured limits (0 = the stream's defaults: dial 2 s, keep-alive 1 s, idle 1 s, flush 1 s)
+	DialMs      int `json:"dial_ms,omitempty"`
+	KeepAliveMs int `json:"keepalive_ms,omitempty"`
+	IdleMs      int `json:"idle_ms,omitempty"`
+	FlushMs     int `json:"flush_ms,omitempty"` // proxy.flushinterval (the SSE handler's)
 }
 
 type c19TimingOut struct {
 	Status    int    `json:"status"`
-	ElapsedUs int64  `json:"elapsed_us"`
+	ElapsedUs int64  `json:"elapsed_us"` // until the last byte of the response body (or the error)
+	HeaderUs  int64  `json:"header_us"`  // until the response headers
 	SlackUs   int64  `json:"slack_us"`
 	Attempts  int    `json:"attempts"`
 	Used      string `json:"used"`     // which transport ServeHTTP's rule selects for the target (observed on the target)
 	RHT       int64  `json:"used_rht"` // its ResponseHeaderTimeout, ns
 	Upstream  int    `json:"upstream_saw"`
+	BodyOK    bool   `json:"body_ok"`  // the body the client read is byte for byte what the upstream sent
+	BodyLen   int    `json:"body_len"` // bytes read
+	BodyWant  int    `json:"body_want"`
 	Err       string `json:"err,omitempty"`
 }
 
 const c19Slack = 150 * time.Millisecond
 
+func (in c19TimingIn) slow() bool { return in.TMs > 0 && in.DMs > in.TMs }
+
 func c19Expected(in c19TimingIn) int {
-	if in.TMs > 0 && in.DMs > in.TMs {
+	if in.slow() {
 		return http.StatusGatewayTimeout
 	}
 	return in.Status
 }
 
-// c19Upstream starts the slow upstream for a case and says how the route to it looks.
+func (in c19TimingIn) cfg() c19Cfg {
+	or := func(v, d int) int64 {
+		if v == 0 {
+			v = d
+		}
+		return int64(v) * int64(time.Millisecond)
+	}
+	return c19Cfg{Dial: or(in.DialMs, 2000), RHT: int64(in.TMs) * int64(time.Millisecond),
+		KeepAlive: or(in.KeepAliveMs, 1000), Idle: or(in.IdleMs, 1000), MaxConn: 4}
+}
+
+func (in c19TimingIn) flush() time.Duration {
+	if in.FlushMs == 0 {
+		return time.Second
+	}
+	return time.Duration(in.FlushMs) * time.Millisecond
+}
+
+const c19GzipTypes = "^text/"
+
+// c19Body is what the upstream sends after its headers.
+func c19Body(in c19TimingIn) string {
+	if in.BodyMs <= 0 || in.Chunks <= 0 {
+		return "ok"
+	}
+	var b strings.Builder
+	for i := 0; i < in.Chunks; i++ {
+		fmt.Fprintf(&b, "chunk %04d of %04d ....\n", i+1, in.Chunks)
+	}
+	return b.String()
+}
+
+// c19Upstream starts the upstream of a case and says how the route to it looks.
 func c19Upstream(in c19TimingIn) (up *httptest.Server, tgt c19Target, saw func() int, stop func()) {
 	release := make(chan struct{})
 	var mu sync.Mutex
 	n := 0
+	wait := func(r *http.Request, d time.Duration) bool {
+		if d <= 0 {
+			return true
+		}
+		select {
+		case <-time.After(d):
+			return true
+		case <-release:
+			return false
+		case <-r.Context().Done():
+			return false
+		}
+	}
 	h := http.HandlerFunc(func(w http.ResponseWriter, r *http.Request) {
 		mu.Lock()
 		n++
 		mu.Unlock()
-		if in.DMs > 0 {
-			select {
-			case <-time.After(time.Duration(in.DMs) * time.Millisecond):
-			case <-release:
-				return
-			case <-r.Context().Done():
+		io.Copy(io.Discard, r.Body)
+		if !wait(r, time.Duration(in.DMs)*time.Millisecond) {
+			return
+		}
+		ct := "text/plain; charset=utf-8"
+		if r.Header.Get("Accept") == "text/event-stream" {
+			ct = "text/event-stream"
+		}
+		w.Header().Set("Content-Type", ct)
+		w.WriteHeader(in.Status)
+		body := c19Body(in)
+		if in.BodyMs <= 0 || in.Chunks <= 0 {
+			io.WriteString(w, body)
+			return
+		}
+		if f, ok := w.(http.Flusher); ok {
+			f.Flush()
+		}
+		per := len(body) / in.Chunks
+		gap := time.Duration(in.BodyMs) * time.Millisecond / time.Duration(in.Chunks)
+		for i := 0; i < in.Chunks; i++ {
+			if !wait(r, gap) {
 				return
 			}
+			io.WriteString(w, body[i*per:(i+1)*per])
+			if f, ok := w.(http.Flusher); ok {
+				f.Flush()
+			}
 		}
-		w.WriteHeader(in.Status)
-		io.WriteString(w, "ok")
 	})
 	up = httptest.NewUnstartedServer(h)
 	up.Config.ErrorLog = log.New(io.Discard, "", 0)
@@ -359,22 +441,46 @@ func c19Upstream(in c19TimingIn) (up *httptest.Server, tgt c19Target, saw func()
 	return
 }
 
-// c19Get sends the one request of a case and fills in status and waiting time.
-func c19Get(url string, out *c19TimingOut) {
-	cl := &http.Client{Transport: &http.Transport{DisableKeepAlives: true}, Timeout: 10 * time.Second}
-	req, _ := http.NewRequest("GET", url, nil)
+// c19Do sends the one request of a case and fills in status, waiting times and what became of the body.
+func c19Do(in c19TimingIn, url string, out *c19TimingOut) {
+	// the client's transport asks for gzip and decodes it by itself (DisableCompression is off)
+	cl := &http.Client{Transport: &http.Transport{DisableKeepAlives: true}, Timeout: 15 * time.Second}
+	method := in.Method
+	if method == "" {
+		method = "GET"
+	}
+	var rb io.Reader
+	if method == "POST" || method == "PUT" {
+		rb = strings.NewReader("x=1&y=2")
+	}
+	req, err := http.NewRequest(method, url, rb)
+	if err != nil {
+		out.Err = "request: " + err.Error()
+		return
+	}
+	if in.Accept != "" {
+		req.Header.Set("Accept", in.Accept)
+	}
+	want := c19Body(in)
+	out.BodyWant = len(want)
+	out.SlackUs = c19Slack.Microseconds()
 	t0 := time.Now()
 	resp, err := cl.Do(req)
-	el := time.Since(t0)
-	out.ElapsedUs = el.Microseconds()
-	out.SlackUs = c19Slack.Microseconds()
+	out.HeaderUs = time.Since(t0).Microseconds()
 	if err != nil {
+		out.ElapsedUs = out.HeaderUs
 		out.Err = "client: " + err.Error()
 		return
 	}
 	out.Status = resp.StatusCode
-	io.Copy(io.Discard, resp.Body)
+	b, err := io.ReadAll(resp.Body)
+	out.ElapsedUs = time.Since(t0).Microseconds()
 	resp.Body.Close()
+	out.BodyLen = len(b)
+	out.BodyOK = err == nil && string(b) == want
+	if err != nil {
+		out.Err = "body: " + err.Error()
+	}
 }
 
 func c19TimingOnce(in c19TimingIn) (out c19TimingOut) {
@@ -382,17 +488,19 @@ func c19TimingOnce(in c19TimingIn) (out c19TimingOut) {
 	defer stop()
 
 	// program order of main: SetConfig, then the table (watchBackend), then the proxies (startServers)
-	transport.SetConfig(c19Cfg{
-		Dial: int64(2 * time.Second), RHT: int64(in.TMs) * int64(time.Millisecond),
-		KeepAlive: int64(time.Second), Idle: int64(time.Second), MaxConn: 4,
-	}.config())
+	cfg := in.cfg().config()
+	cfg.Proxy.FlushInterval = in.flush()
+	if in.Gzip {
+		cfg.Proxy.GZIPContentTypes = regexp.MustCompile(c19GzipTypes)
+	}
+	transport.SetConfig(cfg)
 	tbl, err := c19Table(tgt, up.Listener.Addr().String())
 	if err != nil {
 		out.Err = err.Error()
 		return
 	}
 	globs := route.NewGlobCache(16)
-	p := c19Proxy(func(r *http.Request) *route.Target {
+	p := c19Proxy(cfg.Proxy, func(r *http.Request) *route.Target {
 		return tbl.Lookup(r, "", route.Picker["rnd"], route.Matcher["prefix"], globs, false)
 	})
 	t := c19OnlyTarget(tbl)
@@ -422,14 +530,14 @@ func c19TimingOnce(in c19TimingIn) (out c19TimingOut) {
 	}()
 	front := httptest.NewServer(p)
 	defer front.Close()
-	c19Get(front.URL+"/", &out)
+	c19Do(in, front.URL+"/", &out)
 	out.Upstream = saw()
 	return
 }
 
 // ---------------------------------------------------------------------------------------------------------
 // c19.binary: the same measurement against the real fabio executable (config.Load → main → SetConfig →
-// watchBackend/route.NewTable → startServers/newHTTPProxy), static registry, option on the command line or in
+// watchBackend/route.NewTable → startServers/newHTTPProxy), static registry, options on the command line or in
 // the environment. This is the only stream that executes main's own statement order.
 // ---------------------------------------------------------------------------------------------------------
 
@@ -467,7 +575,7 @@ func c19Binary() (string, error) {
 		cmd := exec.Command("go", "build", "-o", c19BinPath, ".")
 		cmd.Dir = repo
 		if b, err := cmd.CombinedOutput(); err != nil {
-			c19BinErr = fmt.Errorf("go build /repo: %v: %s", err, b)
+			c19BinErr = fmt.Errorf("go build %s: %v: %s", repo, err, b)
 		}
 	})
 	return c19BinPath, c19BinErr
@@ -504,11 +612,18 @@ func c19BinaryOnce(in c19BinaryIn) (out c19TimingOut) {
 	pp, err1 := c19FreePort()
 	ui, err2 := c19FreePort()
 	if err1 != nil || err2 != nil {
-		out.Err = "no free port"
+		out.Err = "env: no free port"
 		return
 	}
+	c := in.cfg()
+	dur := func(ns int64) string { return time.Duration(ns).String() }
 	args := []string{"-insecure", "-registry.backend", "static", "-registry.static.routes", routes,
-		"-proxy.addr", fmt.Sprintf("127.0.0.1:%d", pp), "-ui.addr", fmt.Sprintf("127.0.0.1:%d", ui), "-log.level", "FATAL"}
+		"-proxy.addr", fmt.Sprintf("127.0.0.1:%d", pp), "-ui.addr", fmt.Sprintf("127.0.0.1:%d", ui), "-log.level", "FATAL",
+		"-proxy.dialtimeout", dur(c.Dial), "-proxy.keepalivetimeout", dur(c.KeepAlive), "-proxy.idleconntimeout", dur(c.Idle),
+		"-proxy.maxconn", fmt.Sprint(c.MaxConn), "-proxy.flushinterval", in.flush().String()}
+	if in.Gzip {
+		args = append(args, "-proxy.gzip.contenttype", c19GzipTypes)
+	}
 	env := []string{"PATH=" + os.Getenv("PATH"), "HOME=" + os.Getenv("HOME")}
 	tv := fmt.Sprintf("%dms", in.TMs)
 	if in.Source == "env" {
@@ -520,7 +635,7 @@ func c19BinaryOnce(in c19BinaryIn) (out c19TimingOut) {
 	cmd.Env = env
 	cmd.Stdout, cmd.Stderr = io.Discard, io.Discard
 	if err := cmd.Start(); err != nil {
-		out.Err = "start: " + err.Error()
+		out.Err = "env: start: " + err.Error()
 		return
 	}
 	defer func() { cmd.Process.Kill(); cmd.Wait() }()
@@ -535,14 +650,26 @@ func c19BinaryOnce(in c19BinaryIn) (out c19TimingOut) {
 		}
 	}
 	if !ready {
-		out.Err = "fabio did not start listening"
+		out.Err = "env: fabio did not start listening"
 		return
 	}
 	out.Used = map[string]string{"default": "default", "insecure": "insecure", "route": "route"}[in.Kind]
 	out.RHT = int64(in.TMs) * int64(time.Millisecond) // not observable from outside the process: echoed
-	c19Get("http://"+addr+"/", &out)
+	c19Do(in.c19TimingIn, "http://"+addr+"/", &out)
 	out.Upstream = saw()
 	return
+}
+
+var c19Accepts = []string{"", "text/event-stream", "*/*", "text/html,application/xhtml+xml;q=0.9,*/*;q=0.8", "application/json", "text/event-stream, */*"}
+var c19Methods = []string{"", "GET", "POST", "PUT", "DELETE"}
+
+func c19In(xs []string, s string) bool {
+	for _, x := range xs {
+		if x == s {
+			return true
+		}
+	}
+	return false
 }
 
 func c19CheckTiming(in c19TimingIn) error {
@@ -557,6 +684,17 @@ func c19CheckTiming(in c19TimingIn) error {
 	}
 	if in.Kind != "default" && in.Kind != "insecure" && in.Kind != "route" {
 		return fmt.Errorf("unknown kind")
+	}
+	if !c19In(c19Accepts, in.Accept) || !c19In(c19Methods, in.Method) {
+		return fmt.Errorf("request outside the stream's universe")
+	}
+	if in.BodyMs < 0 || in.BodyMs > 4000 || in.Chunks < 0 || in.Chunks > 64 || (in.BodyMs > 0) != (in.Chunks > 0) {
+		return fmt.Errorf("body outside the range of the stream")
+	}
+	for _, v := range []int{in.DialMs, in.KeepAliveMs, in.IdleMs, in.FlushMs} {
+		if v < 0 || v > 5000 || (v != 0 && v < 20) {
+			return fmt.Errorf("limit outside the range of the stream")
+		}
 	}
 	// never near the timeout: the instant d = T is a race inside net/http and outside the claim
 	if in.TMs > 0 && in.DMs*3 > in.TMs && in.DMs < in.TMs*3 {
@@ -594,9 +732,11 @@ func c19TimingAsExpected(in c19TimingIn, o c19TimingOut) bool {
 	if o.Err != "" || o.Status != c19Expected(in) {
 		return false
 	}
-	bound := int64(in.DMs)
-	if in.TMs > 0 && in.DMs > in.TMs {
+	bound := int64(in.DMs + in.BodyMs)
+	if in.slow() {
 		bound = int64(in.TMs)
+	} else if !o.BodyOK {
+		return false
 	}
 	return o.ElapsedUs <= bound*1000+o.SlackUs
 }
@@ -610,7 +750,7 @@ func c19RunTiming(raw json.RawMessage) (interface{}, error) {
 		return nil, err
 	}
 	// A wall-clock measurement on a shared machine: an unexpected outcome is re-measured (at most three
-	// attempts); a deterministic failure (no limit configured, wrong status) fails every attempt.
+	// attempts); a deterministic failure (no limit configured, wrong status, body cut off) fails every attempt.
 	var out c19TimingOut
 	for a := 1; a <= 3; a++ {
 		out = c19TimingOnce(in)
@@ -620,6 +760,45 @@ func c19RunTiming(raw json.RawMessage) (interface{}, error) {
 		}
 	}
 	return out, nil
+}
+
+// c19GenTiming draws one case: which transport, which handler path (Accept), method, gzip or not, the timeout,
+// and the upstream's behaviour — headers well after the timeout, or headers well within it followed either by a
+// short body or by a body streamed for longer than all configured limits together.
+func c19GenTiming(r *hx.Rand, i int, ts []int) c19TimingIn {
+	t := ts[r.Intn(len(ts))]
+	in := c19TimingIn{TMs: t, Kind: []string{"default", "insecure", "route"}[i%3], Status: []int{200, 200, 201, 404, 500, 503}[r.Intn(6)]}
+	switch r.Intn(3) {
+	case 0:
+		in.Accept = "text/event-stream"
+	case 1:
+		in.Accept = c19Accepts[r.Intn(len(c19Accepts))]
+	}
+	in.Method = c19Methods[r.Intn(len(c19Methods))]
+	in.Gzip = r.Chance(1, 3)
+	if r.Chance(1, 3) {
+		in.FlushMs = []int{20, 100, 1000}[r.Intn(3)]
+	}
+	switch r.Intn(4) {
+	case 0, 1: // headers well after the timeout: 3T … 6T
+		in.DMs = 3*t + r.Intn(3*t+1)
+	case 2: // headers well within it, short body: 0 … T/3
+		in.DMs = r.Intn(t/3 + 1)
+	default: // headers well within it, then a body that outlasts every configured limit and their sum
+		in.DMs = r.Intn(t/3 + 1)
+		in.DialMs = []int{50, 100}[r.Intn(2)]
+		in.KeepAliveMs = []int{50, 100}[r.Intn(2)]
+		in.IdleMs = []int{50, 100}[r.Intn(2)]
+		sum := t + in.DialMs + in.KeepAliveMs + in.IdleMs
+		in.BodyMs = sum + sum/2 + r.Intn(100)
+		in.Chunks = 4 + r.Intn(9)
+		in.Status = []int{200, 200, 200, 201, 404}[r.Intn(5)]
+	}
+	if r.Chance(1, 15) { // no limit configured: the upstream's answer, however late
+		in.TMs = 0
+		in.DMs = []int{0, 20, 150}[r.Intn(3)]
+	}
+	return in
 }
 
 func init() {
@@ -646,7 +825,6 @@ func init() {
 		Run: c19RunFields,
 	})
 
-	kinds := []string{"default", "insecure", "route"}
 	hx.Register(&hx.Stream{
 		Name: "c19.timing",
 		Corpus: []interface{}{
@@ -657,20 +835,7 @@ func init() {
 			c19TimingIn{TMs: 200, DMs: 600, Kind: "insecure", Status: 200},
 			c19TimingIn{TMs: 200, DMs: 40, Kind: "insecure", Status: 404},
 		},
-		Gen: func(r *hx.Rand, i int) interface{} {
-			t := []int{50, 100, 200}[r.Intn(3)]
-			in := c19TimingIn{TMs: t, Kind: kinds[i%3], Status: []int{200, 200, 201, 404, 500, 503}[r.Intn(6)]}
-			if r.Chance(1, 2) {
-				in.DMs = 3*t + r.Intn(3*t+1) // well above: 3T … 6T
-			} else {
-				in.DMs = r.Intn(t/3 + 1) // well below: 0 … T/3
-			}
-			if r.Chance(1, 15) { // no limit configured: the upstream's answer, however late
-				in.TMs = 0
-				in.DMs = []int{0, 20, 150}[r.Intn(3)]
-			}
-			return in
-		},
+		Gen: func(r *hx.Rand, i int) interface{} { return c19GenTiming(r, i, []int{50, 100, 200}) },
 		Run: c19RunTiming,
 	})
 
@@ -681,14 +846,7 @@ func init() {
 			c19BinaryIn{c19TimingIn{TMs: 100, DMs: 10, Kind: "default", Status: 200}, "cmdline"},
 		},
 		Gen: func(r *hx.Rand, i int) interface{} {
-			t := []int{100, 200}[r.Intn(2)]
-			in := c19BinaryIn{c19TimingIn{TMs: t, Kind: kinds[i%3], Status: []int{200, 201, 404}[r.Intn(3)]}, r.Pick([]string{"cmdline", "cmdline", "env"})}
-			if i%2 == 0 {
-				in.DMs = 3*t + r.Intn(t+1)
-			} else {
-				in.DMs = r.Intn(t/3 + 1)
-			}
-			return in
+			return c19BinaryIn{c19GenTiming(r, i, []int{100, 200}), r.Pick([]string{"cmdline", "cmdline", "env"})}
 		},
 		Run: c19RunBinary,
 	})
